@@ -203,6 +203,13 @@ def stepE2E (e : E2E) (w : List String) (impl : String) : Option (E2E × StepOut
     | _, _, _, _ => none
   | ["advance", ms] =>
     ms.toNat?.map fun ms =>
+      -- a quiet period longer than the ping period (1-5 s): the ping loop hands a frame to the
+      -- session; a writer task whose transport fails stops its session (`Model/Link.lean`)
+      let e := if e.link == 5 && ms ≥ 5000 then
+          let io : Link.Ev Nat := if e.fault == some "write" then .writer .err .ok else .writer .ok .err
+          { e with pxs := e.pxs.map fun (p : PX) => { p with net := p.net.step .cut, exact := p.exact && e.settled },
+                   link := 1, lk := Link.run e.lk [.send 0, io] }
+        else e
       let now := e.now + ms
       let e := { e with now := now, settled := false }
       -- callers whose timeout has come give up: their port closes
